@@ -827,6 +827,14 @@ class Gen:
                 else:
                     rows.append({"description": "f%d" % i, "amount": self.amt(3000, c if c03 else rng.choice([c, c, 2, 3]))})
             doc.setdefault("payment", {})["advances"] = rows
+        if getattr(self, "doc_types", False):
+            # orders and deliveries go through the same calculator behind their own accessors
+            r = rng.random()
+            if r < 0.12:
+                doc["$schema"] = "https://gobl.org/draft-0/bill/order"
+            elif r < 0.2:
+                doc["$schema"] = "https://gobl.org/draft-0/bill/delivery"
+                doc.pop("payment", None)          # a delivery has no payment details
         return doc
 
 
